@@ -198,7 +198,11 @@ impl<VM: VMBinding> BumpAllocator<VM> {
             return Address::ZERO;
         }
 
-        let block_size = (size + BLOCK_MASK) & (!BLOCK_MASK);
+        // Reserve room for the worst-case alignment padding, otherwise a request whose padded size
+        // exceeds the acquired block never fits and the slow path keeps acquiring new blocks.
+        let block_size = (crate::util::alloc::allocator::get_maximum_aligned_size::<VM>(size, align)
+            + BLOCK_MASK)
+            & (!BLOCK_MASK);
         let acquired_start = self.space.acquire(
             self.tls,
             bytes_to_pages_up(block_size),
